@@ -25,6 +25,7 @@ from spec.sets import TWO_PI
 class History(Contract):
     prop = "C11"
     unroll = MVO
+    summaries = ("make_valid_orientation",)  # callee contract (proved under C16)
 
 
 # ------------------------------------------------------------------------------ TrajectoryPrediction.occupancy_set
@@ -185,7 +186,7 @@ for _hist, _max in ((0, 1), (1, 1), (1, 2), (2, 2), (3, 2), (2, 5)):
 # ------------------------------------------------------------------------------ traffic light cycle
 
 
-for _mut in ("cycle_elements setter", "time_offset setter", "TrafficLight.traffic_light_cycle setter"):
+for _mut in ("cycle_elements setter", "time_offset setter", "TrafficLight.traffic_light_cycle setter", "cycle_elements edited in place and assigned back"):
 
     @register
     class CycleFresh(History):
@@ -198,7 +199,13 @@ for _mut in ("cycle_elements setter", "time_offset setter", "TrafficLight.traffi
             ds, ss, off, cyc = _cycle(F, 2)
             t = F.int("t")
             d = {"cyc": cyc, "t": t, "ds": ds, "ss": ss, "off": off, "args": []}
-            if self.mut == "cycle_elements setter":
+            if self.mut == "cycle_elements edited in place and assigned back":
+                e = F.int("e_new")
+                c = F.int("colour_new")
+                F.assume(T(e) > 0)
+                d["extra"] = F.new(TrafficLightCycleElement, c, e)
+                d["ds2"], d["ss2"] = ds + [e], ss + [c]
+            elif self.mut == "cycle_elements setter":
                 d["ds2"] = [F.int("e%d" % i) for i in range(3)]
                 d["ss2"] = [F.int("colour2_%d" % i) for i in range(3)]
                 for x in d["ds2"]:
@@ -215,7 +222,11 @@ for _mut in ("cycle_elements setter", "time_offset setter", "TrafficLight.traffi
         def invoke(self, F, inp):
             q = inp["light"] if "light" in inp else inp["cyc"]
             F.method(q, "get_state_at_time_step", inp["t"])  # populate caches
-            if self.mut == "cycle_elements setter":
+            if self.mut == "cycle_elements edited in place and assigned back":
+                lst = F.attr(inp["cyc"], "cycle_elements")
+                lst.append(inp["extra"])
+                F.setattr(inp["cyc"], "cycle_elements", lst)
+            elif self.mut == "cycle_elements setter":
                 F.setattr(inp["cyc"], "cycle_elements", inp["elems2"])
             elif self.mut == "time_offset setter":
                 F.setattr(inp["cyc"], "time_offset", inp["off2"])
